@@ -8,10 +8,12 @@ CONSTANTS
   InitRegs <- Empty
   RegClasses <- Empty
   RegBehs <- Empty
-  MaxRegs = 0
+  MaxRegs = 99
   RaiseClasses <- Empty
   RenderClasses <- Empty
   Mro <- TMro
   StatusOf <- TStatus
+  OwnVary <- TOwnVary
+  MaxReqs = 99
   WrongDesign = "none"
 INVARIANT Sound
